@@ -378,3 +378,82 @@ def check_rmake_rule_words(words, position, workers=16):
             else:
                 bad.append((w, m, real))
     return agree, declined, bad
+
+
+def real_make_includes(word, candidates):
+    """which of the candidate file names does `-include <word>` read?  (each candidate file
+    contains $(info INC:<index>))"""
+    if not _encodable(word):
+        return ('skip', '')
+    with Scratch() as sc:
+        d = sc.path('d')
+        os.makedirs(d)
+        made = []
+        for k, c in enumerate(candidates):
+            if '/' in c or c in ('', '.', '..') or '\0' in c:
+                continue
+            try:
+                with open(os.path.join(d, c), 'w') as f:
+                    f.write('$(info INC:%d)\n' % k)
+                made.append(k)
+            except OSError:
+                pass
+        mk = sc.write('mk', '-include ' + word + '\nall: ;\n')
+        r = subprocess.run([MAKE, '-rR', '-s', '-f', mk, '-C', d], capture_output=True, timeout=30,
+                           env={'PATH': '/usr/bin:/bin', 'HOME': '/nonexistent-home'})
+        if r.returncode != 0:
+            return ('error', r.stderr.decode(errors='replace')[:150])
+        got = []
+        for line in r.stdout.decode(errors='replace').split('\n'):
+            if line.startswith('INC:'):
+                got.append(candidates[int(line[4:])])
+        return sorted(got)
+
+
+def check_rmake_include(words, workers=16):
+    """model says `-include <word>` reads exactly file n (which exists) -> real make reads it"""
+    agree = declined = 0
+    bad = []
+
+    def one(w):
+        # candidate names: the model's answer when the literal un-backslashed name exists
+        lit = w.replace('\\', '').replace('$$', '$')
+        m = rmake.include_words(w, (), [lit])
+        if m is None or len(m) != 1 or '/' in m[0]:
+            return w, None, None
+        cands = sorted({lit, m[0]})
+        return w, [m[0]], real_make_includes(w, cands)
+    with ThreadPoolExecutor(workers) as ex:
+        for w, m, real in ex.map(one, words):
+            if m is None or (isinstance(real, tuple) and real[0] == 'skip'):
+                declined += 1
+            elif real == m:
+                agree += 1
+            else:
+                bad.append((w, m, real))
+    return agree, declined, bad
+
+
+def check_rmake_rule_words_existing(words, position, workers=16):
+    """as check_rmake_rule_words, with the literal (un-backslashed) name present as a file"""
+    agree = declined = 0
+    bad = []
+
+    def one(w):
+        lit = w.replace('\\', '').replace('$$', '$')
+        if '/' in lit or lit in ('', '.', '..'):
+            return w, None, None
+        m = rmake.rule_words('00 ' + w + ' 99', position, (), [lit])
+        if m is None or len(set(m)) != len(m):
+            return w, None, None
+        r = real_make_rule_names('00 ' + w + ' 99', position, decoys=[lit])
+        return w, sorted(set(m)), (sorted(set(r)) if isinstance(r, list) else r)
+    with ThreadPoolExecutor(workers) as ex:
+        for w, m, real in ex.map(one, words):
+            if m is None or (isinstance(real, tuple) and real[0] == 'skip'):
+                declined += 1
+            elif real == m:
+                agree += 1
+            else:
+                bad.append((w, m, real))
+    return agree, declined, bad
